@@ -94,13 +94,34 @@ NAMES = ["a", "b", "ü", "c d", 'q"x', "b\\s", "€", "n\nl", "\U0001f600", "z.d
 _TEXT = set(range(32, 127)) | {10, 13, 9, 12, 8}
 
 
+CHUNK = 2 ** 20
+
+
 def digest(alg: str, b: bytes) -> str:
+    """reference digest, hashlib only.  md5-dos2unix is the legacy rule as it is defined: per 1 MiB hashing chunk,
+    a chunk whose first 512 bytes look like text has its CRLF pairs replaced by LF before it is fed to md5"""
     if alg == "md5-dos2unix":
-        head = b[:512]
-        if b and 0 not in head and 10 * sum(1 for c in head if c not in _TEXT) <= 3 * len(head):
-            b = b.replace(b"\r\n", b"\n")
-        return hashlib.md5(b).hexdigest()  # noqa: S324
+        h = hashlib.md5()  # noqa: S324
+        for i in range(0, len(b), CHUNK):
+            chunk = b[i:i + CHUNK]
+            head = chunk[:512]
+            if 0 not in head and 10 * sum(1 for c in head if c not in _TEXT) <= 3 * len(head):
+                chunk = chunk.replace(b"\r\n", b"\n")
+            h.update(chunk)
+        return h.hexdigest()
     return hashlib.new(alg, b).hexdigest()
+
+
+RECIPES = {
+    # more than one hashing chunk: binary head, CRLF text in the second chunk (and the mirror image)
+    "bin-head+crlf-tail": lambda: b"\x00" * CHUNK + b"line one\r\nline two\r\n",
+    "crlf-head+bin-tail": lambda: b"ab\r\n" * (CHUNK // 4) + b"\x00\x01\x02\r\n\xff",
+    "bin-head+crlf-tail+bin": lambda: b"\x00\x01" * (CHUNK // 2) + b"x\r\ny\r\n" * 7 + b"\x00",
+}
+
+
+def op_file_bytes(op) -> bytes:
+    return RECIPES[op["recipe"]]() if "recipe" in op else bytes.fromhex(op["file"])
 
 
 def stray_files(root):
@@ -296,6 +317,17 @@ def gen_op(rng, cfg, snaps, prev_ws=()):
         if kind == "reopen":
             si = rng.randrange(n)
             return {"op": "reopen", "store": si, "cls": "base" if cfg[si][0] == "local" else "local"}
+        if prev_ws and rng.random() < 0.18:
+            # a file of a kept workspace changes (same length); the workspace is staged again right after
+            w = rng.choice(prev_ws)
+            cands = sorted(k for k, v in w["tree"].items() if len(v) >= 2)
+            if cands:
+                k = rng.choice(cands)
+                b = bytes.fromhex(w["tree"][k])
+                nb = b[:-1] + bytes([(b[-1] + 1 + rng.randrange(200)) % 256])
+                if nb != b:
+                    return {"op": "wsedit", "ws": w["ws"], "path": k, "data": hx(nb),
+                            "how": rng.choice(["replace", "replace", "inplace"])}
         if prev_ws and kind in ("stage", "save") and rng.random() < 0.5:
             # the same unchanged workspace again (a warm hash-state cache), into any store
             w = rng.choice(prev_ws)
@@ -392,11 +424,11 @@ def run_op(ctx, op, cfg, odbs, roots, ws_root, step, state=None, keep_ws=False):
     if kind in ("stage", "upload"):
         si = op["store"]
         odb, alg = odbs[si], cfg[si][1]
-        if "file" in op:
-            data = bytes.fromhex(op["file"])
+        if "file" in op or "recipe" in op:
+            data = op_file_bytes(op)
             impl.mk_tree(ws, {"f": data})
             path = os.path.join(ws, "f")
-            work = ctor("WFile", cbytes(data))
+            work = ctor("WFile", cbytes(data)) if "file" in op else "WFile_too_large_for_a_literal"
         else:
             tree = {k: bytes.fromhex(v) for k, v in op["tree"].items()}
             if not reuse:
@@ -427,6 +459,8 @@ def run_op(ctx, op, cfg, odbs, roots, ws_root, step, state=None, keep_ws=False):
         term = ctor("OAdd", str(si), cbytes(data), cbytes(op["oid"]))
     elif kind == "transfer":
         src, dst = op["src"], op["dst"]
+        if op.get("all_ids"):
+            op["ids"] = sorted(impl.walk_store(roots[src]))
         ids = {HashInfo(cfg[src][1], o) for o in op["ids"]}
         try:
             transfer(odbs[src], odbs[dst], ids, shallow=op["shallow"], verify=bool(op.get("verify")))
@@ -486,6 +520,31 @@ def run_op(ctx, op, cfg, odbs, roots, ws_root, step, state=None, keep_ws=False):
         if not hard:
             ctx.count("env:migrate-without-hardlink")
         term = ctor("OMigrate", str(src), str(dst), clist([cbytes(o) for o in order]), cbool(hard))
+    elif kind == "wsedit":
+        # a workspace event, not a store operation: a file of a kept workspace gets other bytes of the same length
+        pth = os.path.join(ws, *op["path"].split("/"))
+        data = bytes.fromhex(op["data"])
+        old = os.lstat(pth)
+        assert len(data) == old.st_size
+        if op["how"] == "replace":
+            # replaced by another file: same path, size and mtime (to the nanosecond), new inode (rsync -t style)
+            tmp = os.path.join(ws_root, "aside-%d" % step)
+            with open(tmp, "wb") as f:
+                f.write(data)
+            os.utime(tmp, ns=(old.st_atime_ns, old.st_mtime_ns))
+            os.replace(tmp, pth)
+            new = os.lstat(pth)
+            assert (new.st_size, new.st_mtime_ns) == (old.st_size, old.st_mtime_ns) and new.st_ino != old.st_ino
+        else:
+            # rewritten in place within the same second: same inode and size, mtime differs by a fraction
+            with open(pth, "r+b") as f:
+                f.write(data)
+            sec = old.st_mtime_ns // 10 ** 9
+            frac = 500_000_000 if old.st_mtime_ns % 10 ** 9 != 500_000_000 else 250_000_000
+            os.utime(pth, ns=(old.st_atime_ns, sec * 10 ** 9 + frac))
+            new = os.lstat(pth)
+            assert new.st_ino == old.st_ino and int(new.st_mtime) == int(old.st_mtime) and new.st_mtime != old.st_mtime
+        return 0, None, extra
     elif kind == "rot":
         # not a dvc-data operation: the bytes of an object change on disk (same inode, same mode)
         si = op["store"]
@@ -530,8 +589,8 @@ def covered(op, code, cfg, before, after):
     if kind in ("stage", "upload", "save"):
         si = op["store"]
         alg = cfg[si][1]
-        if "file" in op:
-            return si, {digest(alg, bytes.fromhex(op["file"]))}
+        if "file" in op or "recipe" in op:
+            return si, {digest(alg, op_file_bytes(op))}
         tree = {k: bytes.fromhex(v) for k, v in op["tree"].items()}
         out = {digest(alg, v) for v in tree.values()}
         key = "sha256" if alg == "sha256" else "md5"
@@ -578,6 +637,8 @@ def run_history(ctx, cfg, ops=None, nsteps=0, malformed=False, shared_state=Fals
     try:
         rotten_inodes = set()
         rotted = None
+        forced = None
+        large = any("recipe" in o for o in (ops or []))  # oracle-only: no literals of MiB-sized contents
         ntail = ctx.rng.randint(1, 3) if (rot and ops is None) else 0
         for step in range(total + (1 if malformed else 0) + ((1 + ntail) if rot and ops is None else 0)):
             if rot and ops is None and step >= total:
@@ -592,15 +653,34 @@ def run_history(ctx, cfg, ops=None, nsteps=0, malformed=False, shared_state=Fals
                 op = gen_nonwf(ctx.rng, cfg, snaps)
                 if op is None:
                     break
+            elif ops is None and forced is not None:
+                # right after a workspace edit: stage that workspace again, preferably into a store that lacks
+                # the objects of its previous content
+                order = list(range(len(cfg)))
+                ctx.rng.shuffle(order)
+                order = [j for j in order if cfg[j][1] != "sha256"] or order
+                si = min(order, key=lambda j: len(snaps[j]))
+                kind = "save" if ctx.rng.random() < 0.3 else "stage"
+                op = {"op": kind, "store": si, "tree": forced["tree"], "ws": forced["ws"]}
+                forced = None
             else:
                 op = ops[step] if ops is not None else gen_op(ctx.rng, cfg, snaps, prev_ws if shared_state else ())
             code, term, extra = run_op(ctx, op, cfg, odbs, roots, root, step, state, keep_ws=shared_state)
+            if op["op"] == "wsedit":
+                for w in prev_ws:
+                    if w["ws"] == op["ws"]:
+                        w["tree"] = {**w["tree"], op["path"]: op["data"]}
+                        forced = w
+                done.append(op)
+                ctx.count("op:wsedit:" + op["how"])
+                continue
             for x in [e for e in extra if e[0] == "rotten-inode"]:
                 rotten_inodes.add(x[1])
                 extra.remove(x)
             new = [impl.walk_store(r) for r in roots]
             wf = 0 if op.get("nonwf") else 1  # Coq's wf_op_b must agree: the generator keeps WfOp unless it says otherwise
-            exp.append(vL([vN(code), vN(wf), vL([delta_val(p, n) for p, n in zip(snaps, new)])]))
+            if not large:
+                exp.append(vL([vN(code), vN(wf), vL([delta_val(p, n) for p, n in zip(snaps, new)])]))
             if new != snaps:
                 changed += 1
                 kinds.add(op["op"])
@@ -639,7 +719,7 @@ def run_history(ctx, cfg, ops=None, nsteps=0, malformed=False, shared_state=Fals
     case = {"stores": cfg0, "ops": done}
     if shared_state:
         case["state"] = True
-    inp = cpair(clist([cpair(CLS_CTOR[c], ALG_CTOR[a]) for c, a in cfg0]), clist(terms))
+    inp = cpair(clist([cpair(CLS_CTOR[c], ALG_CTOR[a]) for c, a in cfg0]), clist([t for t in terms if t]))
     impl.rm_rf(root)
     return case, inp, vL(exp), problems, changed, kinds
 
@@ -668,6 +748,16 @@ CORPUS = [
              {"op": "save", "store": 1, "tree": {"p/q": hx(b"a\r\nb\r\n"), "r": hx(b"\r\n")}},
              {"op": "save", "store": 2, "tree": {"p/q": hx(b"a\r\nb\r\n"), "r": hx(b"\r\n")}, "ws": 2},
              {"op": "stage", "store": 0, "tree": {"p/q": hx(b"a\r\nb\r\n"), "r": hx(b"\r\n")}, "ws": 2}]},
+    # a workspace file is replaced by another one of the same size and mtime (new inode) / rewritten in place within
+    # the same second, between two stagings of the workspace into different stores sharing one State
+    {"stores": [["local", "md5"], ["base", "md5"], ["local", "md5-dos2unix"]], "state": True,
+     "ops": [{"op": "stage", "store": 0, "tree": {"f": hx(b"AAAA"), "d/g": hx(b"x\r\ny"), "h": hx(b"same")}},
+             {"op": "wsedit", "ws": 0, "path": "f", "data": hx(b"AAAB"), "how": "replace"},
+             {"op": "stage", "store": 1, "tree": {"f": hx(b"AAAB"), "d/g": hx(b"x\r\ny"), "h": hx(b"same")}, "ws": 0},
+             {"op": "wsedit", "ws": 0, "path": "d/g", "data": hx(b"y\r\nx"), "how": "inplace"},
+             {"op": "save", "store": 2, "tree": {"f": hx(b"AAAB"), "d/g": hx(b"y\r\nx"), "h": hx(b"same")}, "ws": 0},
+             {"op": "wsedit", "ws": 0, "path": "h", "data": hx(b"emas"), "how": "replace"},
+             {"op": "stage", "store": 2, "tree": {"f": hx(b"AAAB"), "d/g": hx(b"y\r\nx"), "h": hx(b"emas")}, "ws": 0}]},
     # a remote object rots; a verifying fetch into a local store must not let it in (nor the directory listing it)
     {"stores": [["local", "md5"], ["base", "md5"], ["local", "md5"]],
      "ops": [{"op": "stage", "store": 0, "tree": {"a": hx(b"A"), "d/b": hx(b"B")}},
@@ -743,6 +833,7 @@ def run(ctx):
             ctx.oracle_fail(sig, f"after step {step}: {what}", {**case, "ops": case["ops"][:step + 1]})
         if not problems:
             items.append((case, inp, exp))
+    run_large(ctx)
     ctx.obligation("oracle:rehash-every-object-after-every-step",
                    not any(v.kind == "oracle" for v in ctx.violations),
                    f"{steps} steps of {len(todo)} histories audited with hashlib (names, canonical listings, modes)")
@@ -751,6 +842,35 @@ def run(ctx):
     # untruthful external add, a transfer across algorithms); model and code must still agree, and the
     # Coq-side checker wf_op_b must reject exactly that operation
     ctx.correspond("nonwf_history", IMPORTS, IN_TYPE, MODEL, mal_items, shard=4)
+
+
+LARGE = [
+    {"stores": [["local", "md5-dos2unix"], ["local", "md5"], ["base", "md5-dos2unix"]], "large": True,
+     "ops": [{"op": "stage", "store": 0, "recipe": "bin-head+crlf-tail"},
+             {"op": "stage", "store": 0, "recipe": "crlf-head+bin-tail"},
+             {"op": "migrate", "src": 0, "dst": 1},
+             {"op": "migrate", "src": 1, "dst": 2}]},
+    {"stores": [["base", "md5"], ["local", "md5-dos2unix"], ["local", "md5"]], "large": True,
+     "ops": [{"op": "stage", "store": 0, "recipe": "bin-head+crlf-tail+bin"},
+             {"op": "stage", "store": 1, "recipe": "bin-head+crlf-tail+bin"},
+             {"op": "stage", "store": 0, "recipe": "crlf-head+bin-tail"},
+             {"op": "migrate", "src": 0, "dst": 1},
+             {"op": "migrate", "src": 1, "dst": 2},
+             {"op": "transfer", "src": 2, "dst": 0, "ids": [], "shallow": True, "verify": True, "all_ids": True}]},
+]
+
+
+def run_large(ctx):
+    """oracle-only stream: contents longer than one hashing chunk (2^20 bytes).  No Coq evaluation - a MiB through the
+    Gallina MD5 is out of reach - the real stores are judged by the hashlib oracle alone, the legacy digest being
+    computed independently as the per-chunk definition."""
+    for c in LARGE:
+        case, _inp, _exp, problems, _ch, _k = run_history(ctx, c["stores"], c["ops"], 0)
+        case["large"] = True
+        ctx.case(case, True)
+        ctx.count("stream:large-content")
+        for sig, what, step in problems:
+            ctx.oracle_fail(sig, f"after step {step}: {what}", {**case, "ops": case["ops"][:step + 1]})
 
 
 def replay_case(ctx, case):
